@@ -12,7 +12,7 @@ ECOS = ["alpine", "alpm", "apache", "cargo", "composer", "conan", "cran", "debia
 def paddings(run):
     cfg = ("CONSTANT Texts = {\"a\"}\nCONSTANT MaxLog = 2\nSPECIFICATION ASpec\nINVARIANT OnlyLegalOutcomes\nINVARIANT EmitPads\n"
            "PROPERTY ObserversArePure\nCONSTRAINT Bound\nCHECK_DEADLOCK FALSE\n")
-    lines, st, dt = vlib.tlc(run, "MC_Api", cfg, workers=2, timeout=300)
+    lines, st, dt = vlib.tlc(run, "MC_Api", cfg, workers=2, timeout=300, coverage=True)
     return vlib.tagged(lines, "VEC")[0]["pads"]
 
 def check(run):
